@@ -41,6 +41,28 @@ pub struct Program {
     pub steps: Vec<Step>,
     /// keys probed with formatting at quiescence
     pub final_probe: bool,
+    /// production mode: the library is written to a scratch directory and the server started on the path
+    /// (state: None => notes read from disk, random fresh-note names). URIs in the program stay under
+    /// /basepath and are re-based onto the directory when sent (and back when received).
+    #[serde(default)]
+    pub disk: bool,
+}
+
+static DISK_COUNTER: std::sync::atomic::AtomicU64 = std::sync::atomic::AtomicU64::new(0);
+
+struct RemoveDirOnDrop(Option<std::path::PathBuf>);
+impl Drop for RemoveDirOnDrop {
+    fn drop(&mut self) {
+        if let Some(d) = &self.0 {
+            let _ = std::fs::remove_dir_all(d);
+        }
+    }
+}
+
+fn rebase(m: &Message, from: &str, to: &str) -> Message {
+    let text = serde_json::to_string(m).unwrap_or_default();
+    let out = text.replace(&format!("file://{}/", from), &format!("file://{}/", to));
+    serde_json::from_str(&out).unwrap_or_else(|_| m.clone())
 }
 
 /// the URI an editor would send for the note: percent-encoded by the url crate
@@ -133,7 +155,27 @@ fn response_for<'a>(received: &'a [Recv], id: &RequestId) -> Vec<&'a Recv> {
 pub fn execute(program: &Program, mode: &mut Mode, budget_mult: usize) -> Result<Trace, SchedError> {
     // unscheduled threads (none on the unchanged tree) start after a seeded delay of up to 2 ms
     crate::entropy::wild_config(rng::fnv(&serde_json::to_string(&program.steps).unwrap_or_default()) | 1, 2000);
-    let mut sys = System::start(server_params(program)).map_err(SchedError::Stuck)?;
+    let mut params = server_params(program);
+    let mut disk_dir: Option<std::path::PathBuf> = None;
+    if program.disk {
+        let n = DISK_COUNTER.fetch_add(1, std::sync::atomic::Ordering::SeqCst);
+        let dir = crate::runner::verif_path(&format!("target/scratch/disk-{}-{}", std::process::id(), n));
+        let _ = std::fs::remove_dir_all(&dir);
+        for (k, t) in &program.library {
+            let p = dir.join(format!("{}.md", k));
+            if let Some(parent) = p.parent() {
+                let _ = std::fs::create_dir_all(parent);
+            }
+            let _ = std::fs::write(&p, t);
+        }
+        let _ = std::fs::create_dir_all(&dir);
+        params.state = None;
+        params.base_path = dir.to_string_lossy().to_string();
+        disk_dir = Some(dir);
+    }
+    let disk_base: Option<String> = disk_dir.as_ref().map(|d| d.to_string_lossy().to_string());
+    let _cleanup = RemoveDirOnDrop(disk_dir.clone());
+    let mut sys = System::start(params).map_err(SchedError::Stuck)?;
     let mut tr = Trace::default();
     let mut seq: u64 = 0;
     let mut next_step = 0usize;
@@ -146,6 +188,10 @@ pub fn execute(program: &Program, mode: &mut Mode, budget_mult: usize) -> Result
     macro_rules! drain {
         () => {
             for m in sys.drain() {
+                let m = match &disk_base {
+                    Some(d) => rebase(&m, d, BASE),
+                    None => m,
+                };
                 seq += 1;
                 tr.digest = rng::mix2(tr.digest, rng::fnv(&serde_json::to_string(&canonical_incoming(&m)).unwrap_or_default()));
                 tr.received.push(Recv { msg: m, seq, p: tr.notifications_sent });
@@ -302,7 +348,10 @@ pub fn execute(program: &Program, mode: &mut Mode, budget_mult: usize) -> Result
                         tr.notifications_sent += 1;
                     }
                     tr.digest = rng::mix2(tr.digest, rng::fnv(&serde_json::to_string(&m).unwrap_or_default()));
-                    sys.send(m.clone());
+                    sys.send(match &disk_base {
+                        Some(d) => rebase(&m, BASE, d),
+                        None => m.clone(),
+                    });
                     tr.sent.push(Sent { msg: m, step: idx, seq, p, fault });
                 }
             }
@@ -398,7 +447,10 @@ pub fn execute(program: &Program, mode: &mut Mode, budget_mult: usize) -> Result
             let rid: RequestId = (900_000 + n as i32).into();
             let m = Message::Request(Request { id: rid, method: "textDocument/formatting".into(), params: json!({"textDocument": {"uri": u}, "options": {"tabSize": 2, "insertSpaces": true}}) });
             seq += 1;
-            sys.send(m.clone());
+            sys.send(match &disk_base {
+                Some(d) => rebase(&m, BASE, d),
+                None => m.clone(),
+            });
             tr.sent.push(Sent { msg: m, step: usize::MAX, seq, p: tr.notifications_sent, fault: String::new() });
             let mut seqm = Mode::Sequential;
             loop {
@@ -427,6 +479,10 @@ pub fn execute(program: &Program, mode: &mut Mode, budget_mult: usize) -> Result
     }
     let fin = sys.finish();
     drain!();
+    crate::entropy::wait_wild_threads(500);
+    if let Some(d) = &disk_dir {
+        let _ = std::fs::remove_dir_all(d);
+    }
     match fin {
         Ok(r) => tr.loop_result = Some(r),
         Err(e) => tr.loop_result = Some(Err(format!("HANG: {}", e))),
@@ -502,6 +558,10 @@ pub fn canonical_answer(method: &str, r: Option<&Response>) -> String {
                 return format!("error({}): {}", e.code, normalise_panic(&e.message));
             }
             let mut v = resp.result.clone().unwrap_or(Value::Null);
+            if method == "codeAction/resolve" || method == "textDocument/completion" || method == "workspace/executeCommand" {
+                // fresh-note names are random 8-character draws in production mode
+                v = serde_json::from_str(&mask_random_names(&v.to_string())).unwrap_or(v);
+            }
             match method {
                 "textDocument/references" => {
                     if let Value::Array(a) = &mut v {
@@ -518,6 +578,33 @@ pub fn canonical_answer(method: &str, r: Option<&Response>) -> String {
             v.to_string()
         }
     }
+}
+
+/// replace every maximal run of exactly eight [a-z0-9] characters by a placeholder
+pub fn mask_random_names(text: &str) -> String {
+    let chars: Vec<char> = text.chars().collect();
+    let mut out = String::with_capacity(text.len());
+    let mut i = 0;
+    while i < chars.len() {
+        if chars[i].is_ascii_lowercase() || chars[i].is_ascii_digit() {
+            let mut j = i;
+            while j < chars.len() && (chars[j].is_ascii_lowercase() || chars[j].is_ascii_digit()) {
+                j += 1;
+            }
+            let prev_alnum = i > 0 && chars[i - 1].is_alphanumeric();
+            let next_alnum = j < chars.len() && chars[j].is_alphanumeric();
+            if j - i == 8 && !prev_alnum && !next_alnum {
+                out.push_str("RNDNAME8");
+            } else {
+                out.extend(&chars[i..j]);
+            }
+            i = j;
+        } else {
+            out.push(chars[i]);
+            i += 1;
+        }
+    }
+    out
 }
 
 // ------------------------------------------------------------------------------------------------
@@ -845,6 +932,7 @@ pub fn generate(seed: u64, thorough: bool, faults: bool) -> GenOut {
     let fault_pct = if enabled_faults.is_empty() { 0 } else { *swarm.pick(&[15u32, 30, 50]) };
 
     let key_flavour = if swarm.chance(1, 3) { 1 } else { 0 };
+    let disk = swarm.chance(1, 8);
     let big_doc_bytes = if swarm.chance(1, 25) { *swarm.pick(&[9_000usize, 70_000, 140_000]) } else { 0 };
     let version_mode = swarm.below(3); // 0: constant 1, 1: increasing, 2: increasing with restarts after close/open
     let all_keys = gen::rich_key_pool(n_notes + 2, with_dirs, key_flavour, &mut work);
@@ -1107,7 +1195,7 @@ pub fn generate(seed: u64, thorough: bool, faults: bool) -> GenOut {
             }
             10 => {
                 let (l, c) = link_pos(&text, &mut work);
-                steps.push(Step::Request { method: "textDocument/rename".into(), params: json!({"textDocument": text_doc(&key), "position": {"line": l, "character": c}, "newName": format!("renamed{}", steps.len())}), fault: String::new(), id: None });
+                steps.push(Step::Request { method: "textDocument/rename".into(), params: json!({"textDocument": text_doc(&key), "position": {"line": l, "character": c}, "newName": format!("renamed-note-{}", steps.len())}), fault: String::new(), id: None });
             }
             11 => {
                 let l = work.below(text.lines().count().max(1)) as u32;
@@ -1135,7 +1223,7 @@ pub fn generate(seed: u64, thorough: bool, faults: bool) -> GenOut {
             }
         }
     }
-    let program = Program { refs_ext, client_name, config, library, steps, final_probe: true };
+    let program = Program { refs_ext, client_name, config, library, steps, final_probe: true, disk };
     GenOut { program, policy_name, policy }
 }
 
